@@ -7,7 +7,7 @@ EXPLANATION = ("O1 in the operation issue point, when the handle's timeout is So
                "argument is the ID allocated for this very operation, and the Elapsed error is then propagated; without a timeout the bare "
                "receiver is awaited; O2 the same for every stream item (timer built inside the per-item call, duration copied from the "
                "handle at start, scrub of the stream's own operation ID); O3 the driver's scrub arm removes the ID from both routing maps "
-               "and the in-use set and neither breaks nor returns; O4 the late reply is discarded because the ID is then unrouted (C01 R5). "
+               "and the in-use set and neither breaks nor returns; O6 on every exit of an issued operation the handle's timeout is None; O4 the late reply is discarded because the ID is then unrouted (C01 R5). "
                "Not decided: that the timer fires on time; arrival-time orderings (tokio's clock and scheduler).")
 TRUSTED = ['tokio::time::timeout semantics', 'tokio scheduler']
 UNDECIDED = ['that the timer fires at the deadline', 'all orderings of arrival vs deadline']
@@ -110,13 +110,37 @@ def run(ctx):
     check_timed_wait(ctx, 'O1', O, outs, is_rx, timeout_field,
                      lambda a, o: id_term is not None and sem.strip_site(a) == id_term, 'the ID allocated for this operation')
 
+    # ---- O6 the timeout is one operation's: on every path that handed the request to the driver and leaves the issue point - the
+    # reply arrived, the reply channel closed, or the timeout elapsed - the handle's timeout is None at the exit (taken, or reset on
+    # that very path).  Otherwise a duration that has fired stays armed and cuts short the next, untimed operation on the handle.
+    # (A path whose hand-over failed is not asked: the driver is gone and every later operation fails at the same send.)
+    T_PLACE = ('field', SELF, 'timeout')
+    n_iss = 0
+    for o in outs:
+        if o.kind not in ('val', 'ret'):
+            continue
+        req_sites = {node.get('id') for i, cal, args, node in sem.calls(o, lambda c: c.endswith('UnboundedSender::<T>::send')) if sem.recv_ty(node) == anchors.T_REQ_SENDER}
+        handed = [t for a, t in o.st.pc if a[0] == 'is' and a[2] == 'Ok' and a[1][0] == 'call' and a[1][3] in req_sites]
+        if handed != [True]:
+            continue
+        n_iss += 1
+        left = o.st.heap.get(T_PLACE)
+        if left is None and absx.pc_variant(o.st.pc, lambda v: v == T_PLACE, 'Some') is False:
+            left = ('ctor', 'None', ())         # never written on this path, and the path found it unset
+        elapsed = any(t[0] == 'call' and t[1] == TIMEOUT and sem.failed(o, lambda v, t=t: v == ('await', t)) for i, t, _n in sem.awaits(o))
+        how = 'the timeout elapsed' if elapsed else 'the operation failed' if sem.is_err_result(o.val) else 'the reply arrived'
+        ctx.add('O6.timeout-applies-to-one-operation', O.path + '|' + psig(o) + '|' + how.split()[-1], loc(O.root), left == ('ctor', 'None', ()),
+                'on a path of an issued operation (%s) the handle\'s timeout is left %s: it stays armed for the next operation on the handle, which was given none'
+                % (how, 'as it was' if left is None else 'set to ' + absx.fmt(left)[:40]))
+    ctx.floor('O6', 'exits of an issued operation', n_iss, 3)
+
     # ---- O2
-    nxt = anchors.one('SearchStream::next_inner', [h for p, h in f.hir.items() if p.startswith('ldap3::search::SearchStream') and p.endswith('::next_inner')])
+    nxt =anchors.one('SearchStream::next_inner', [h for p, h in f.hir.items() if p.startswith('ldap3::search::SearchStream') and p.endswith('::next_inner')])
     N = hirq.Body(f, nxt)
     ctx.analysed['bodies'].add(N.path)
     nouts, _I = sem.paths(f, N, result_combinators=True)
     def is_recv(t):
-        return t[0] == 'call' and t[1].endswith('UnboundedReceiver::<T>::recv') and len(t[2]) == 1 and sem.has(t[2][0], lambda x: x == ('field', SELF, 'rx'))
+        return t[0] == 'call' and t[1].startswith('tokio::sync::mpsc::') and t[1].endswith('Receiver::<T>::recv') and len(t[2]) == 1 and sem.has(t[2][0], lambda x: x == ('field', SELF, 'rx'))
     check_timed_wait(ctx, 'O2', N, nouts, is_recv, lambda v: v == ('field', SELF, 'timeout'),
                      lambda a, o: a == ('field', ('field', SELF, 'ldap'), 'last_id'), 'the ID of the stream\'s own search (its handle\'s last_id)')
     # the per-item duration persists: nothing in the per-item call writes or takes the stream's timeout
@@ -135,15 +159,27 @@ def run(ctx):
             len(oc) == 1 and S.origin(oc[0]['recv']) == (('param', 'self'), (('field', 'ldap'),)),
             'the search is not issued on the stream\'s own handle, so last_id is not the search\'s ID')
 
-    # ---- O3 scrub arm keeps serving
+    # ---- O3 scrub arm keeps serving; decided on the enumerated paths of the arm (what an expanded helper leaves behind - a branch
+    # that cannot be taken, an early `return` of the helper turned into the end of its block - is read as what it does)
+    import driver as drv
     L = C.loop
     scrub = C.arms['scrub']
-    bad = [n for n, c in walk(scrub['body']) if n['k'] in ('Break', 'Ret')]
-    ctx.add('O3.scrub-arm-keeps-serving', L.path, loc(scrub['body']), not bad, 'the scrub arm leaves the driver loop: a timeout would end the connection')
-    o_s = hirq.project(L.origin_of_bind(scrub['bindings'][0][0]), ('variant', 'Some', 0))
+    souts = [o for o in drv.arm_paths(C, 'scrub')[0] if o.kind != 'div']
+    leaving = [o for o in souts if o.kind in ('brk', 'ret')]
+    ctx.add('O3.scrub-arm-keeps-serving', L.path, loc(scrub['body']), bool(souts) and not leaving, 'the scrub arm leaves the driver loop: a timeout would end the connection')
+    SCRUBBED = ('variant', drv.ARM, 'Some', 0)
     n_rm = 0
-    for n, c in walk(scrub['body']):
-        if n['k'] == 'MethodCall' and n['name'] == 'remove' and (C.is_map_place(n['recv'], 'result') or C.is_map_place(n['recv'], 'search') or C.is_idset_place(n['recv'])):
-            n_rm += 1
-            ctx.add('O3.scrub-key', n['recv'].get('name', '?'), loc(n), hirq.strip_casts(L.origin(n['args'][0])) == o_s, 'the scrub arm removes an ID other than the scrubbed one')
+    for o in souts:
+        if absx.pc_variant(o.st.pc, lambda v: v == drv.ARM, 'Some') is not True:
+            continue
+        removed = {}
+        for w in ('result', 'search', 'idset'):
+            for i, name, args, node in drv.map_calls(C, o, w, ('remove', 'remove_entry', 'clear', 'drain')):
+                n_rm += 1
+                k = args[1] if len(args) > 1 else None
+                removed.setdefault(w, []).append(k)
+                ctx.add('O3.scrub-key', w, loc(node), k == SCRUBBED, 'the scrub arm removes an ID other than the scrubbed one (%s)' % (absx.fmt(k)[:50] if k else 'everything'))
+        for w in ('result', 'search', 'idset'):
+            ctx.add('O3.scrub-complete', w, loc(scrub['body']), SCRUBBED in removed.get(w, []),
+                    'a path of the scrub arm does not remove the scrubbed ID from the %s: the late reply would still be delivered / the ID would stay reserved' % {'result': 'result routing map', 'search': 'search routing map', 'idset': 'in-use set'}[w])
     ctx.floor('O3', 'removals in the scrub arm', n_rm, 3)
